@@ -917,10 +917,14 @@ func (e *evalEnv) call(x *ast.CallExpr) tv {
 				}
 				t = rs.At(i).Type()
 				if rec != nil && rec.res != nil {
-					if tup, ok := top.tuples[rec.res]; ok {
+					act := rec.act
+					if act == nil {
+						act = top
+					}
+					if tup, ok := act.tuples[rec.res]; ok {
 						return tv{term: tup[i], typ: t}
 					}
-					if v, ok := top.env[rec.res]; ok && rs.Len() == 1 {
+					if v, ok := act.env[rec.res]; ok && rs.Len() == 1 {
 						return tv{term: v, typ: t}
 					}
 				}
